@@ -698,6 +698,13 @@ func (m *concModel) limitLoads(f *ssa.Function, seen map[*ssa.Function]bool) int
 // isLimitSnapshot: v is the result of an atomic load, directly or through a
 // wrapper whose every return is that load.
 func (m *concModel) isLimitSnapshot(v ssa.Value) bool {
+	return m.isLimitSnapshotD(v, 0)
+}
+
+func (m *concModel) isLimitSnapshotD(v ssa.Value, depth int) bool {
+	if depth > 4 {
+		return false
+	}
 	call, ok := v.(*ssa.Call)
 	if !ok {
 		return false
@@ -712,7 +719,7 @@ func (m *concModel) isLimitSnapshot(v ssa.Value) bool {
 	if core.InMod(h) && h.Blocks != nil {
 		rs := core.Returns(h)
 		for _, r := range rs {
-			if len(r.Results) != 1 || !m.isLimitSnapshot(r.Results[0]) {
+			if len(r.Results) != 1 || !m.isLimitSnapshotD(r.Results[0], depth+1) {
 				return false
 			}
 		}
